@@ -375,6 +375,10 @@ func wrap(value string) string {
 }
 
 func canEqual(tt types.Type) bool {
+	if named, isNamed := tt.(*types.Named); isNamed && equalMethodInputParam(named) != nil {
+		// a type with its own Equal method is compared with that method, also when it is part of an array or a struct.
+		return false
+	}
 	t := tt.Underlying()
 	switch typ := t.(type) {
 	case *types.Basic:
